@@ -12,6 +12,7 @@ import Driver.C17
 import Driver.Fed
 import Driver.C10
 import Driver.C14
+import Driver.C04
 open GqlVerif GqlVerif.Driver
 
 /-- dispatch one request; unknown op → `unsupported` -/
@@ -31,6 +32,7 @@ def dispatch (op : String) (args : Json) : Option Json :=
   | "fed.exec" => some (fedExec args)
   | "c10.check" => some (c10check args)
   | "c14.sent" => some (c14sent args)
+  | "c04.validate" => some (c04validate args)
   | "c19.decode" => some (c19decode args)
   | "c05.lex" => some (c05lex args)
   | "c05.limits" => some (c05limits args)
